@@ -259,7 +259,7 @@ def run_check(pid, tier, seed, work, t0):
     for name, ql, tl in cfg["mc"]:
         if (ql, tl)[ti] == 0:
             continue        # configuration used in the other tier only
-        r = run_mc(name, work, level=(ql, tl)[ti])
+        r = run_mc(name, work, level=(ql, tl)[ti], tier=tier)
         if not r["ok"]:
             raise Machinery("TLC reports an error in configuration %s of the specification itself:\n%s"
                             % (name, r.get("tail", "")))
